@@ -339,6 +339,7 @@ def run_check(mod, tier: str, seed: int, args) -> int:
     status_counts: collections.Counter = collections.Counter()
     groups: dict[str, list[tuple[dict, dict, dict]]] = {}
     harness_errors: list[str] = []
+    inconclusive: list = []
     try:
         if hasattr(mod, "run_batch"):
             # properties whose unit of work is not a single run (e.g. C13 pairs)
@@ -350,6 +351,10 @@ def run_check(mod, tier: str, seed: int, args) -> int:
                 status_counts[res.get("status", "?")] += 1
                 if res.get("status") in ("harness_error", "watchdog"):
                     harness_errors.append(f"run {task['task_id']}: {res.get('status')}: {(res.get('error') or '')[-800:]}")
+                    return
+                if res.get("status") == "cap":
+                    # step cap exceeded = inconclusive (a harness warning), never a verdict
+                    inconclusive.append(task["task_id"])
                     return
                 results.append((task["desc"], res))
                 for v in res.get("violations", []) or []:
@@ -390,6 +395,8 @@ def run_check(mod, tier: str, seed: int, args) -> int:
             print(f"  (+{len(new_groups) - budget.get('max_report', 4)} further violation classes not minimised)")
         wall = time.monotonic() - t0
         write_evidence(mod, sess, tier, seed, results, status_counts, groups, known_hits, new_groups, wall, search_wall, harness_errors)
+        if inconclusive:
+            print(f"WARNING {len(inconclusive)} run(s) exceeded the step cap and were left out as inconclusive: {inconclusive[:8]}")
         if harness_errors:
             for h in harness_errors[:10]:
                 print("HARNESS-ERROR:", h)
